@@ -3,6 +3,7 @@ package rlwe
 import (
 	"fmt"
 	"math/big"
+	"math/bits"
 
 	"github.com/tuneinsight/lattigo/v6/ring"
 	"github.com/tuneinsight/lattigo/v6/utils"
@@ -98,10 +99,18 @@ func (eval RingPackingEvaluator) extract(ct *Ciphertext, idx map[int]bool, naive
 
 	keys := utils.GetSortedKeys(idx)
 
-	_, logGap, err := getMinimumGap(keys)
-
-	if err != nil {
+	if _, _, err = getMinimumGap(keys); err != nil {
 		return nil, fmt.Errorf("getMinimumGap: %w", err)
+	}
+
+	// Expand only returns the coefficients whose index is a multiple of 2^{logGap}:
+	// logGap is the largest value such that 2^{logGap} divides all the requested indexes.
+	logGap := logNMax
+	for _, i := range keys {
+		if i != 0 {
+			/* #nosec G115 -- i is a coefficient index */
+			logGap = utils.Min(logGap, bits.TrailingZeros64(uint64(i)))
+		}
 	}
 
 	// First recursively splits the ciphertexts into smaller ciphertexts of half the ring
